@@ -9,6 +9,15 @@ PY = '/venv/bin/python'
 
 # id -> (level category, level text, level note, technique, design ref, engine)
 CHECKS = {
+    'C01': ('exploration',
+            'Generated world plans run complete Thrift and ThriftMux clients built by the public builders on a virtual-time '
+            'gevent loop over a simulated network; delays are drawn from a palette centred on each call\'s deadline so that '
+            'reply/timer, fault/timer and open/call races are the common case. Per call: exactly one completion that never '
+            'changes afterwards, outcome in {echo of an endpoint, error, TimeoutError}, completion <= t+T rounded up to 10 ms '
+            '(+1 ms), TimeoutError not before t+T (-1 ms), including calls issued while the client is still opening.',
+            'kernel sockets / libev replaced by the simulation; 1 ms tolerance; peers never forge replies',
+            'Hypothesis world plans on virtual-time gevent + simulated network; exactly-once and deadline-band oracle',
+            '5/C01', 'simnet'),
     'C03': ('exploration',
             'Generated dispatch/complete/down/up/join/leave histories against the real heap and aperture balancers built '
             'from their Builders; at every dispatch the stamped endpoint is compared with a reference model of outstanding '
